@@ -230,7 +230,8 @@ def disagreement(cfg, ops, sizes, rp):
         if a != b:
             return ('outcome', ops[i]['k'], a, ops[i].get('why', 'valid'), i == len(ops) - 1)
     if run.view != pyspec.view(s):
-        return ('view',)
+        # a history in which a refused edit left something behind is C14's business: keep the two classes apart
+        return ('view',) if all(o == 'ok' for o in run.outs) else ('view', 'after-refused-edit')
     return None
 
 
